@@ -13,7 +13,7 @@ PROP = {
         "Multi.C01.paths_agree",
         "Multi.C01.broadcast_designates_source",
     ],
-    "harnesses": [views_harness(["zero"], 4800, 320000)],
+    "harnesses": [views_harness(["c01"], 4800, 320000)],
     "trusted_base": TRUSTED_COMMON,
     "assumptions": ["index arithmetic does not overflow ptrdiff_t", "element type int, raw pointers (other pointer types: C11)"],
     "rule": VIEW_RULE,
